@@ -651,6 +651,23 @@ func (s *lsSim) importSnap(k int) {
 				term: term, vote: 0, commit: idx, last: idx, floor: idx, ss: idx, rm: idx}
 		}
 	}
+	if pl {
+		// the power loss hit every replica of the store: the others are looked at as well, right away - an
+		// update that only moved their commit index may be gone (the judge resolves it at this observation)
+		others := []int{}
+		for i := range s.nodes {
+			if i != k {
+				others = append(others, i)
+			}
+		}
+		ops := s.panels(others)
+		s.emit(jLsEv{Op: "Reopen", PL: true, Panels: ops})
+		for _, p := range ops {
+			if p.RsErr == "" && s.nodes[p.N].hasState {
+				s.nodes[p.N].commit = p.St[2]
+			}
+		}
+	}
 }
 
 // saveFsError: one save of one replica during which a single write or fsync of the file system
